@@ -4,7 +4,6 @@ import (
 	"bytes"
 	"errors"
 	"fmt"
-	"os"
 	"testing"
 
 	"pgregory.net/rapid"
@@ -70,9 +69,7 @@ func c12Render(c *c12Case, sink *faultSink) (n int64, err error, panicked interf
 		}
 	}
 	if c.DeleteFiles && !c.SecondRender {
-		for _, p := range b.FilePaths {
-			_ = os.Remove(p)
-		}
+		b.RemoveFiles()
 	}
 	if c.SecondRender {
 		// a clean first render; producers armed by invocation count are not consumed by it
@@ -80,9 +77,7 @@ func c12Render(c *c12Case, sink *faultSink) (n int64, err error, panicked interf
 		var first bytes.Buffer
 		_, _ = b.Msg.WriteTo(&first)
 		if c.DeleteFiles {
-			for _, p := range b.FilePaths {
-				_ = os.Remove(p)
-			}
+			b.RemoveFiles()
 		}
 	}
 	defer func() {
@@ -126,7 +121,7 @@ func c12Run(c c12Case) []*core.Violation {
 	prodFault := c12HasProducerFault(&c.Spec)
 	if c.DeleteFiles {
 		for _, f := range append(append([]gen.FileSpec{}, c.Spec.Embeds...), c.Spec.Attachments...) {
-			if f.Source == "file" && len(f.Prod.Chunks) == 0 && !f.Prod.Fail {
+			if (f.Source == "file" || f.Source == "iofs") && len(f.Prod.Chunks) == 0 && !f.Prod.Fail {
 				prodFault = true
 			}
 		}
@@ -274,12 +269,12 @@ func c12ArmProducerFault(t *rapid.T, c *c12Case) {
 
 func c12ArmDeleteFiles(c *c12Case) {
 	for i := range c.Spec.Attachments {
-		if c.Spec.Attachments[i].Source == "file" {
+		if c.Spec.Attachments[i].Source == "file" || c.Spec.Attachments[i].Source == "iofs" {
 			c.DeleteFiles = true
 		}
 	}
 	for i := range c.Spec.Embeds {
-		if c.Spec.Embeds[i].Source == "file" {
+		if c.Spec.Embeds[i].Source == "file" || c.Spec.Embeds[i].Source == "iofs" {
 			c.DeleteFiles = true
 		}
 	}
@@ -330,7 +325,7 @@ func TestC12(t *testing.T) {
 	rec := core.Rec("C12")
 	rec.Rule = "message programs drawn by rapid (0..3 parts, 0..2 embeds, 0..2 attachments, 3 encodings, all file sources, contents <= 90 bytes; optionally a preformatted header, also folded by the caller, and a long generic header); " +
 		"for each program EVERY sink offset k in [0,len(output)) is tried in two sink modes (partial accept / whole-write refusal), on the first or the second render; " +
-		"one program in three instead has one producer failing after 0..len bytes, on every invocation or only on the first or (S/MIME) the second one of the render (custom writer functions, or the caller's io.ReadSeeker behind the library's own AttachReadSeeker/EmbedReadSeeker producer failing in Read or in the rewind; error values ErrInjected, io.EOF, a wrapped io.EOF, io.ErrUnexpectedEOF, io.ErrClosedPipe), or its on-disk attachment files deleted before (or between) renders; TestC12Prod runs batches of up to 40 such producer-fault programs per case; one program in six is S/MIME-signed (ECDSA; offsets up to 64 bytes before the end, because boundary and signature change per render). Non-trivial: every faulty render; distinct by (shape incl. per-leaf encoding and content classes, decile of k for multipart messages, sink mode, render index)."
+		"one program in three instead has one producer failing after 0..len bytes, on every invocation or only on the first or (S/MIME) the second one of the render (custom writer functions, or the caller's io.ReadSeeker behind the library's own AttachReadSeeker/EmbedReadSeeker producer failing in Read or in the rewind; error values ErrInjected, io.EOF, a wrapped io.EOF, io.ErrUnexpectedEOF, io.ErrClosedPipe), or its file-system backed files (on disk, or in an fs.FS) deleted before (or between) renders; TestC12Prod runs batches of up to 40 such producer-fault programs per case; one program in six is S/MIME-signed (ECDSA; offsets up to 64 bytes before the end, because boundary and signature change per render). Non-trivial: every faulty render; distinct by (shape incl. per-leaf encoding and content classes, decile of k for multipart messages, sink mode, render index)."
 	rec.Assumptions = []string{"sinks obey the io.Writer contract (n<len(p) only together with an error) and keep failing after the first failure"}
 	core.Prop[c12Case]{ID: "C12", Test: "TestC12", Gen: c12Gen, Run: c12Run}.Check(t)
 }
